@@ -93,9 +93,26 @@ func c09Collision(r *Rng, forced int) c09WS {
 		case 2:
 			return c09CrossFileMembers(r)
 		}
-		forced = r.Intn(5)
+		forced = r.Intn(6)
 	}
-	switch forced % 5 {
+	switch forced % 6 {
+	case 5: // tables and classes with more members than a hover / completion preview shows (the preview is cut to a fixed number)
+		var sb strings.Builder
+		n := r.Range(31, 60)
+		sb.WriteString("local Big = {\n")
+		for _, k := range r.Perm(n) {
+			fmt.Fprintf(&sb, "  field%02d = %d,\n", k, k)
+		}
+		sb.WriteString("}\nprint(Big, Big.field03)\nGBig = { ")
+		for _, k := range r.Perm(n) {
+			fmt.Fprintf(&sb, "gf%02d = %d, ", k, k)
+		}
+		sb.WriteString("}\n---@class BigCls\n")
+		for _, k := range r.Perm(n) {
+			fmt.Fprintf(&sb, "---@field cf%02d number\n", k)
+		}
+		sb.WriteString("local BigCls = {}\n---@type BigCls\nlocal inst = {}\nprint(inst, BigCls, inst.cf01)\n")
+		return c09WS{"big-table-preview", map[string]string{"conf.lua": sb.String(), "use.lua": "print(GBig, GBig.gf02)\nlocal g = GBig\nprint(g)\n"}}
 	case 0: // the same global function defined in 2-3 files with different arities; a caller elsewhere
 		n := r.Range(2, 3)
 		files := map[string]string{}
@@ -330,7 +347,7 @@ func runC09(c *Ctx) {
 	}
 	for i := 0; i < nColl; i++ {
 		forced := -1
-		if i < 15 {
+		if i < 18 {
 			forced = i // three of each hand-written kind first
 		}
 		wss = append(wss, c09Collision(root.Fork(uint64(100000+i)), forced))
